@@ -157,6 +157,9 @@ def check_case(ctx, case, minimize=True):
     ctx.count("evaluations")
     ctx.current = case
     conf, A, B = case["conf"], case["A"], case["B"]
+    if not B or B[0] in " \n":
+        ctx.count("skipped.B_indented_or_blank")   # side condition of the statement: B starts in column 0
+        return
     md = W.get_md(conf)
     try:
         r = law(md, A, B, ctx)
@@ -234,7 +237,7 @@ def run(ctx):
     # every (trace-leaving document | delicate construct) followed by every delicate construct, on four configurations; chains of setters
     pairs = [(a, b) for a in SETTERS + SENSITIVE for b in SENSITIVE if b[0] not in " \n"]   # B starts in column 0 (side condition)
     for _ in range(ctx.scale(1500, 60000)):
-        pairs.append(("\n".join(rng.sample(SETTERS, rng.randint(2, 4))), rng.choice(SENSITIVE)))
+        pairs.append(("\n".join(rng.sample(SETTERS, rng.randint(2, 4))), rng.choice([b for b in SENSITIVE if b[0] not in " \n"])))
     for i, (a, b) in enumerate(pairs):
         if not ctx.mine(i):
             continue
@@ -267,7 +270,7 @@ def run(ctx):
             return clean(rng.choice(corp))
         return clean("\n".join(rng.choice(vocab) for _ in range(rng.randint(1, 4))))
 
-    followers = SENSITIVE + ["- x\n", "  - x\n".lstrip(), "1. x\n", "> q\n", "zz\n", "===\n", "---\n", "# h\n", "```\nc\n```\n", "[r]: /u\n", "|a|b|\n|-|-|\n|c|d|\n",
+    followers = [b for b in SENSITIVE if b[0] not in " \n"] + ["- x\n", "  - x\n".lstrip(), "1. x\n", "> q\n", "zz\n", "===\n", "---\n", "# h\n", "```\nc\n```\n", "[r]: /u\n", "|a|b|\n|-|-|\n|c|d|\n",
                  "<div>\nx\n</div>\n", "* * *\n", "+ y\n\n  z\n", "2) w\n", "a\nb\n", "-\n", ">\n", "\\\n", "<!-- c -->\n"]
     # sensitive-follower battery: a block DIRECTLY followed (no blank line) by lines whose reading depends on parser context
     bases = ["|a|b|\n|-|-|\n|c|d|\n", "|a|\n|-|\n", "para\n", "> q\n", "- i\n", "1. o\n", "```\nf\n```\n", "# h\n", "<div>\nx\n", "t\n===\n", "[r]: /u\n", "> - n\n", "- > m\n"]
